@@ -69,12 +69,7 @@ func (r Float32) MAX(a, b Float32) Scalar {
 }
 /* -------------------------------------------------------------------------- */
 func (c Float32) ABS(a Float32) Scalar {
-  if c.Sign() == -1 {
-    c.NEG(a)
-  } else {
-    c.SET(a)
-  }
-  return c
+  return c.Abs(a)
 }
 /* -------------------------------------------------------------------------- */
 func (c Float32) NEG(a Float32) Float32 {
